@@ -2,4 +2,293 @@
 From Coq Require Import List Arith ZArith Lia Bool.
 Import ListNotations.
 From GV Require Import Sched Events DelayedDestructorModel.
-Local Open Scope Z_scope.
+
+Notation sysD := (sys glob loc).
+Notation runD := (run glob loc tstep).
+Notation stepD := (step glob loc tstep).
+Notation enabledD := (enabled glob loc tstep).
+
+(* ---------- multisets of object ids ---------- *)
+Definition cnt (o : nat) (l : list nat) : nat := count_occ Nat.eq_dec l o.
+Lemma cnt_nil o : cnt o [] = 0. Proof. reflexivity. Qed.
+Lemma cnt_cons o x l : cnt o (x :: l) = (if Nat.eqb x o then 1 else 0) + cnt o l.
+Proof. unfold cnt. cbn. destruct (Nat.eq_dec x o), (Nat.eqb_spec x o); try congruence; reflexivity. Qed.
+Lemma cnt_app o a b : cnt o (a ++ b) = cnt o a + cnt o b.
+Proof. apply count_occ_app. Qed.
+Lemma cnt_In o l : In o l <-> cnt o l > 0.
+Proof. apply count_occ_In. Qed.
+Lemma cnt_notin o l : ~ In o l <-> cnt o l = 0.
+Proof. apply count_occ_not_In. Qed.
+Lemma memn_In o l : memn o l = true <-> In o l.
+Proof.
+  unfold memn. rewrite existsb_exists. split.
+  - intros [x [Hx He]]. apply Nat.eqb_eq in He. subst. exact Hx.
+  - intros H. exists o. split; [exact H|apply Nat.eqb_refl].
+Qed.
+Lemma memn_false o l : memn o l = false <-> cnt o l = 0.
+Proof.
+  rewrite <- cnt_notin. rewrite <- memn_In. destruct (memn o l); split; intros H; try congruence; auto.
+Qed.
+Lemma fupd_eq f o v : fupd f o v o = v.
+Proof. unfold fupd. rewrite Nat.eqb_refl. reflexivity. Qed.
+Lemma fupd_ne f o v x : x <> o -> fupd f o v x = f x.
+Proof. intros H. unfold fupd. destruct (Nat.eqb_spec x o); congruence. Qed.
+Arguments cnt : simpl never.
+Lemma NoDup_cnt l : NoDup l <-> forall o, cnt o l <= 1.
+Proof. apply NoDup_count_occ. Qed.
+
+(* ---------- scan: what `use_count() == 1` selects ---------- *)
+Lemma scan_rc v : forall r ec r', scan v r = (ec, r') -> forall o, r' o = r o + cnt o ec.
+Proof.
+  induction v as [|x v IH]; intros r ec r' H o; cbn in H.
+  - inversion H; subst. rewrite cnt_nil. lia.
+  - destruct (Nat.eqb_spec (r x) 1) as [E|E].
+    + destruct (scan v (fupd r x (S (r x)))) as [ec1 r1] eqn:S1. inversion H; subst.
+      rewrite (IH _ _ _ S1 o), cnt_cons. destruct (Nat.eqb_spec x o) as [->|Hne].
+      * rewrite fupd_eq. lia.
+      * rewrite fupd_ne by auto. lia.
+    + apply (IH _ _ _ H o).
+Qed.
+Lemma scan_sel v : forall r ec r', scan v r = (ec, r') ->
+  forall o, cnt o ec <= 1 /\ (cnt o ec = 1 -> r o = 1 /\ In o v).
+Proof.
+  induction v as [|x v IH]; intros r ec r' H o; cbn in H.
+  - inversion H; subst. rewrite cnt_nil. split; [lia|discriminate].
+  - destruct (Nat.eqb_spec (r x) 1) as [E|E].
+    + destruct (scan v (fupd r x (S (r x)))) as [ec1 r1] eqn:S1. inversion H; subst.
+      destruct (IH _ _ _ S1 o) as [A B]. rewrite cnt_cons. destruct (Nat.eqb_spec x o) as [->|Hne].
+      * assert (cnt o ec1 = 0).
+        { destruct (cnt o ec1) as [|k] eqn:Ek; [reflexivity|]. assert (k = 0) by lia. subst.
+          destruct (B eq_refl) as [B1 _]. rewrite fupd_eq in B1. lia. }
+        split; [lia|]. intros _. split; [exact E|left; reflexivity].
+      * rewrite fupd_ne in B by auto. split; [lia|]. intros H1. destruct B as [B1 B2]; [lia|]. split; [exact B1|right; exact B2].
+    + destruct (IH _ _ _ H o) as [A B]. split; [exact A|]. intros H1. destruct (B H1). split; auto. right; auto.
+Qed.
+
+(* ---------- sweep: what remove_if + erase take out of the vector ---------- *)
+Lemma sweep_rc v ep : forall r v2 r2, sweep v ep r = (v2, r2) -> forall o, r2 o + cnt o v = r o + cnt o v2 /\ cnt o v2 <= cnt o v.
+Proof.
+  induction v as [|x v IH]; intros r v2 r2 H o; cbn in H.
+  - inversion H; subst. rewrite !cnt_nil. lia.
+  - destruct (Nat.eqb (r x) 2 && memn x ep) eqn:C.
+    + apply andb_true_iff in C as [C1 _]. apply Nat.eqb_eq in C1.
+      destruct (IH _ _ _ H o) as [A B]. rewrite cnt_cons. destruct (Nat.eqb_spec x o) as [->|Hne].
+      * rewrite fupd_eq in A. lia.
+      * rewrite fupd_ne in A by auto. lia.
+    + destruct (sweep v ep r) as [k r1] eqn:S1. inversion H; subst.
+      destruct (IH _ _ _ S1 o) as [A B]. rewrite !cnt_cons. lia.
+Qed.
+Lemma sweep_keeps v ep : forall r v2 r2, sweep v ep r = (v2, r2) -> forall o, cnt o ep = 0 -> cnt o v2 = cnt o v.
+Proof.
+  induction v as [|x v IH]; intros r v2 r2 H o Ho; cbn in H.
+  - inversion H; subst. reflexivity.
+  - destruct (Nat.eqb (r x) 2 && memn x ep) eqn:C.
+    + apply andb_true_iff in C as [_ C2]. apply memn_In, cnt_In in C2.
+      rewrite cnt_cons. destruct (Nat.eqb_spec x o) as [->|Hne]; [lia|]. rewrite (IH _ _ _ H o Ho). lia.
+    + destruct (sweep v ep r) as [k r1] eqn:S1. inversion H; subst. rewrite !cnt_cons, (IH _ _ _ S1 o Ho). reflexivity.
+Qed.
+Lemma sweep_removes v ep : forall r v2 r2, sweep v ep r = (v2, r2) ->
+  forall o, cnt o v = 1 -> r o = 2 -> cnt o ep > 0 -> cnt o v2 = 0.
+Proof.
+  induction v as [|x v IH]; intros r v2 r2 H o Hc Hr Hm; cbn in H.
+  - inversion H; subst. reflexivity.
+  - rewrite cnt_cons in Hc. destruct (Nat.eqb (r x) 2 && memn x ep) eqn:C.
+    + destruct (Nat.eqb_spec x o) as [->|Hne].
+      * destruct (sweep_rc _ _ _ _ _ H o). lia.
+      * apply (IH _ _ _ H o); auto. rewrite fupd_ne by auto. exact Hr.
+    + destruct (sweep v ep r) as [k r1] eqn:S1. inversion H; subst. rewrite cnt_cons.
+      destruct (Nat.eqb_spec x o) as [->|Hne].
+      * exfalso. rewrite Hr in C. cbn in C. apply memn_false in C. lia.
+      * cbn. apply (IH _ _ _ S1 o); auto.
+Qed.
+
+(* the net effect of the critical section of destroyObjects(): if the use counts are exact
+   (r o = entries in the vector + other owners), the selected objects are exactly those whose only owner
+   is one vector entry; those entries move to ecall, and no use count changes overall *)
+Lemma scan_sweep v r (other : nat -> nat) ec r1 v2 r2 :
+  (forall o, r o = cnt o v + other o) -> scan v r = (ec, r1) -> sweep v ec r1 = (v2, r2) ->
+  forall o, r2 o = r o /\ cnt o v = cnt o v2 + cnt o ec /\ cnt o ec <= 1 /\
+            (cnt o ec = 1 -> r o = 1 /\ cnt o v2 = 0 /\ other o = 0).
+Proof.
+  intros Hr Hs Hw o.
+  pose proof (scan_rc _ _ _ _ Hs o) as R1. destruct (scan_sel _ _ _ _ Hs o) as [S1 S2].
+  destruct (sweep_rc _ _ _ _ _ Hw o) as [W1 W2]. pose proof (Hr o) as Ho.
+  destruct (cnt o ec) as [|k] eqn:Ek.
+  - pose proof (sweep_keeps _ _ _ _ _ Hw o Ek). repeat split; try lia.
+  - assert (k = 0) by lia. subst k. destruct (S2 eq_refl) as [E1 E2]. apply cnt_In in E2.
+    assert (cnt o v = 1) as Cv by lia.
+    assert (cnt o v2 = 0) as C2 by (apply (sweep_removes _ _ _ _ _ Hw o Cv); lia).
+    repeat split; lia.
+Qed.
+
+(* ---------- references held by pending instructions ---------- *)
+(* every shared_ptr copy a thread holds: ecall (ICb / IClear) and the by-value parameter of add *)
+Definition irefs (i : instr) : list nat :=
+  match i with IAddLock o => [o] | ICb _ _ ec _ => ec | IClear _ l => l | _ => [] end.
+(* references the container itself put into a local vector *)
+Definition crefs (i : instr) : list nat :=
+  match i with ICb _ _ ec _ => ec | IClear src l => if Nat.eqb src SRC_DROP then [] else l | _ => [] end.
+(* destructors about to run *)
+Definition idtor (i : instr) : list nat := match i with IDtor _ o => [o] | _ => [] end.
+
+Definition stk_of (ls : list loc) (u : nat) : list instr :=
+  match nth_error ls u with Some l => stk l | None => [] end.
+Definition tot (f : instr -> list nat) (o : nat) (ls : list loc) : nat :=
+  list_sum (map (fun l => cnt o (flat_map f (stk l))) ls).
+Definition ext (g : glob) (o : nat) : nat := cnt o (map snd (slots g)).
+Definition dcnt (g : glob) (o : nat) : nat := cnt o (dlog (gh g)).
+Definition cbc (g : glob) (o : nat) : nat := cnt o (cblog (gh g)).
+
+Lemma stk_of_upd ls t l l' u : nth_error ls t = Some l ->
+  stk_of (upd ls t l') u = if Nat.eqb u t then stk l' else stk_of ls u.
+Proof.
+  intros H. unfold stk_of. destruct (Nat.eqb_spec u t) as [->|Hne].
+  - rewrite (nth_upd_eq _ _ _ _ H). reflexivity.
+  - rewrite nth_upd_ne by auto. reflexivity.
+Qed.
+Lemma stk_of_at ls t l : nth_error ls t = Some l -> stk_of ls t = stk l.
+Proof. intros H. unfold stk_of. rewrite H. reflexivity. Qed.
+Arguments stk_of : simpl never.
+
+Lemma tot_upd f o ls t l l' : nth_error ls t = Some l ->
+  tot f o (upd ls t l') + cnt o (flat_map f (stk l)) = tot f o ls + cnt o (flat_map f (stk l')).
+Proof. intros H. unfold tot. apply (sum_upd (fun l => cnt o (flat_map f (stk l))) ls t l l' H). Qed.
+(* the form used in the step proofs: the stack i :: st becomes push ++ st *)
+Lemma tot_step f o ls t l i st p push r : nth_error ls t = Some l -> stk l = i :: st ->
+  tot f o (upd ls t (Loc p (push ++ st) r)) + cnt o (f i) = tot f o ls + cnt o (flat_map f push).
+Proof.
+  intros H Hs. pose proof (tot_upd f o ls t l (Loc p (push ++ st) r) H) as E.
+  rewrite Hs in E. cbn [stk flat_map] in E. rewrite flat_map_app, !cnt_app in E.
+  rewrite !Nat.add_assoc in E. apply Nat.add_cancel_r in E. exact E.
+Qed.
+Lemma list_sum_cons a b : list_sum (a :: b) = a + list_sum b.
+Proof. reflexivity. Qed.
+Lemma tot_ge f o ls t l : nth_error ls t = Some l -> cnt o (flat_map f (stk l)) <= tot f o ls.
+Proof.
+  unfold tot. revert t. induction ls as [|h r IH]; destruct t; cbn [map nth_error]; rewrite ?list_sum_cons; intros H; try discriminate.
+  - inversion H; subst. lia.
+  - specialize (IH _ H). lia.
+Qed.
+Lemma tot_ge2 f o ls t u l l' : t <> u -> nth_error ls t = Some l -> nth_error ls u = Some l' ->
+  cnt o (flat_map f (stk l)) + cnt o (flat_map f (stk l')) <= tot f o ls.
+Proof.
+  unfold tot. revert t u. induction ls as [|h r IH]; destruct t, u; cbn [map nth_error]; rewrite ?list_sum_cons; intros Hne H1 H2; try discriminate; try congruence.
+  - inversion H1; subst. pose proof (tot_ge f o r u l' H2). unfold tot in *. lia.
+  - inversion H2; subst. pose proof (tot_ge f o r t l H1). unfold tot in *. lia.
+  - assert (t <> u) by congruence. specialize (IH _ _ H H1 H2). lia.
+Qed.
+
+Lemma slot_del_ext s l x : slot_get s l = Some x ->
+  forall o, cnt o (map snd (slot_del s l)) + (if Nat.eqb x o then 1 else 0) = cnt o (map snd l).
+Proof.
+  induction l as [|[k y] l IH]; cbn; intros H o; [discriminate|].
+  destruct (Nat.eqb_spec k s).
+  - inversion H; subst. rewrite cnt_cons. lia.
+  - cbn. rewrite !cnt_cons. specialize (IH H o). lia.
+Qed.
+
+(* ---------- shape of the stack of the thread that owns the mutex ---------- *)
+Definition hold_i (i : instr) : bool :=
+  match i with IUnlock | IDdLoop _ _ _ | IDdBody _ _ | ISetRvSize => true | _ => false end.
+Definition quiet (st : list instr) : bool := forallb (fun i => negb (hold_i i)) st.
+Definition holds (st : list instr) : bool :=
+  match st with
+  | IUnlock :: _ | IDdLoop _ _ _ :: _ | IDdBody _ _ :: _ | ISetRvSize :: IUnlock :: _ => true
+  | _ => false
+  end.
+Definition wf (st : list instr) : bool :=
+  match st with
+  | IUnlock :: r | IDdLoop _ _ _ :: r | IDdBody _ _ :: r | ISetRvSize :: IUnlock :: r => quiet r
+  | _ => quiet st
+  end.
+Lemma quiet_app a b : quiet (a ++ b) = quiet a && quiet b.
+Proof. apply forallb_app. Qed.
+Lemma quiet_not_holds st : quiet st = true -> holds st = false.
+Proof. destruct st as [|i st]; [reflexivity|]. destruct i; cbn; try discriminate; reflexivity. Qed.
+Lemma quiet_wf st : quiet st = true -> wf st = true.
+Proof. destruct st as [|i st]; [reflexivity|]. destruct i; cbn; try discriminate; auto. Qed.
+
+(* ---------- the mutex primitives touch nothing but the mutex ---------- *)
+Lemma set_mtx_id g : g = set_mtx g (mtx g).
+Proof. destruct g; reflexivity. Qed.
+Lemma try_acq_mtx t c g b g' es : try_acq t c g = Some (b, g', es) -> exists m, g' = set_mtx g m.
+Proof.
+  unfold try_acq. destruct (locked (cf g)); [destruct (mtx g) eqn:M; [destruct (Nat.eqb c 2)|]|]; intros H; inversion H; subst.
+  - eexists; apply set_mtx_id.
+  - eexists; reflexivity.
+  - eexists; apply set_mtx_id.
+Qed.
+Lemma lock_acq_mtx t g g' es : lock_acq t g = Some (g', es) -> exists m, g' = set_mtx g m.
+Proof.
+  unfold lock_acq. destruct (locked (cf g)); [destruct (mtx g) eqn:M|]; intros H; inversion H; subst.
+  - eexists; reflexivity.
+  - eexists; apply set_mtx_id.
+Qed.
+Lemma unlock_mtx g g' es : unlock g = (g', es) -> exists m, g' = set_mtx g m.
+Proof.
+  unfold unlock. destruct (locked (cf g)); intros H; inversion H; subst.
+  - eexists; reflexivity.
+  - eexists; apply set_mtx_id.
+Qed.
+
+(* ---------- counting invariant: use counts are exact; life cycle; conservation ---------- *)
+Definition created (g : glob) (o : nat) : bool := (1 <=? o) && (o <=? nobj g).
+Record InvC (g : glob) (ls : list loc) : Prop := {
+  (* use_count = vector entries + client slots + references held by pending instructions *)
+  C_rc : forall o, rc g o = cnt o (vec g) + ext g o + tot irefs o ls;
+  (* an object whose count is 0 is destroyed or its destructor is the next thing its releaser does; never both, never twice *)
+  C_life : forall o, if Nat.eqb (rc g o) 0
+                     then dcnt g o + tot idtor o ls = (if created g o then 1 else 0)
+                     else created g o = true /\ dcnt g o + tot idtor o ls = 0;
+  (* every push into the vector is a vector entry, an entry of a local vector, or a released reference *)
+  C_cons : forall o, cnt o (addlog (gh g)) = cnt o (vec g) + tot crefs o ls + cnt o (rlog (gh g));
+  (* a selected object has left the vector, has no client owner, and exactly the local reference *)
+  C_reaped : forall o, In o (reaped (gh g)) -> cnt o (vec g) = 0 /\ ext g o = 0 /\ rc g o <= 1 /\ created g o = true;
+  C_dead : cstate g = 2 -> vec g = []
+}.
+
+Lemma created_rc0 g ls o : InvC g ls -> created g o = false -> rc g o = 0 /\ cnt o (vec g) = 0 /\ ext g o = 0 /\ tot irefs o ls = 0.
+Proof.
+  intros HI Hc. pose proof (C_life _ _ HI o) as L. pose proof (C_rc _ _ HI o) as R.
+  destruct (Nat.eqb_spec (rc g o) 0) as [E|E]; [lia|]. destruct L as [L _]. congruence.
+Qed.
+Lemma created_S g o : created g o = true -> o <> S (nobj g).
+Proof. unfold created. intros H. apply andb_true_iff in H as [_ H]. apply Nat.leb_le in H. lia. Qed.
+Lemma created_new g : created g (S (nobj g)) = false.
+Proof. unfold created. apply andb_false_iff. right. apply Nat.leb_gt. lia. Qed.
+
+(* bring the result of one instruction into a form in which every field of the new state computes *)
+Ltac norm_exec H :=
+  cbn [exec] in H;
+  repeat match type of H with
+  | context [try_acq ?t ?c ?g] =>
+    let TA := fresh "TA" in let m := fresh "m" in let b := fresh "b" in
+    destruct (try_acq t c g) as [[[b ?g1] ?es1]|] eqn:TA; [|discriminate H];
+    destruct (try_acq_mtx _ _ _ _ _ _ TA) as [m ->]; destruct b
+  | context [lock_acq ?t ?g] =>
+    let LA := fresh "LA" in let m := fresh "m" in
+    destruct (lock_acq t g) as [[?g1 ?es1]|] eqn:LA; [|discriminate H];
+    destruct (lock_acq_mtx _ _ _ _ LA) as [m ->]
+  | context [unlock ?g] =>
+    let UA := fresh "UA" in let m := fresh "m" in
+    destruct (unlock g) as [?g1 ?es1] eqn:UA; destruct (unlock_mtx _ _ _ UA) as [m ->]
+  end.
+
+Section ExecC.
+  Variables (g : glob) (ls : list loc) (t : nat) (l : loc) (i : instr) (st : list instr) (c : nat).
+  Variables (g' : glob) (r' : Z) (push : list instr) (es : list ev) (p : list op).
+  Hypothesis HI : InvC g ls.
+  Hypothesis Hl : nth_error ls t = Some l.
+  Hypothesis Hs : stk l = i :: st.
+  Hypothesis Hx : exec t c g (rv l) i = Some (g', r', push, es).
+  Let ls' := upd ls t (Loc p (push ++ st) r').
+
+  Lemma TS f o : tot f o ls' + cnt o (f i) = tot f o ls + cnt o (flat_map f push).
+  Proof. apply (tot_step f o ls t l i st p push r' Hl Hs). Qed.
+
+  (* the reference the executing instruction holds is counted *)
+  Lemma ref_here f o : cnt o (f i) <= tot f o ls.
+  Proof.
+    pose proof (tot_ge f o ls t l Hl) as H. rewrite Hs in H. cbn [flat_map] in H. rewrite cnt_app in H. lia.
+  Qed.
+End ExecC.
